@@ -1,6 +1,7 @@
 package main
 
 import (
+	"time"
 	"context"
 	"fmt"
 	"math"
@@ -231,6 +232,34 @@ func streamOps(o *Out, r *rand.Rand, n int, thorough bool) {
 					}
 				}
 			}
+		}
+	}
+	// string * n with counts of every Go type whose kind is int / int32 / int64 - defined types included (time.Month, a host's own
+	// `type Level int`): the count is the number, whatever the type's name
+	type opsLevel int
+	type opsTicks int64
+	for _, c := range []struct {
+		name string
+		v    interface{}
+		n    int
+	}{{"int64", int64(3), 3}, {"int", int(2), 2}, {"int32", int32(2), 2}, {"time.Month", time.Month(3), 3}, {"time.Weekday", time.Weekday(2), 2}, {"time.Duration", time.Duration(2), 2},
+		{"Level", opsLevel(3), 3}, {"Ticks", opsTicks(0), 0}, {"Ticks", opsTicks(4), 4}} {
+		for _, src := range []string{"\"ab\" * n", "s * n", "ss[0] * n", "\"ab\" * ns[0]"} {
+			out := runScript(src, map[string]interface{}{"n": c.v, "s": "ab", "ss": []string{"ab"}, "ns": []interface{}{c.v}}, nil)
+			o.Sum.Evaluations++
+			o.Sum.Hist["repeat-count-types"]++
+			want := strings.Repeat("ab", c.n)
+			if out.panicked || out.err != nil || !sameValue(want, out.val) {
+				o.Fail(Failure{Oracle: "go-arithmetic", Key: "repeat-count-type:" + c.name, Input: fmt.Sprintf("%s with n = %s(%v)", src, c.name, c.v),
+					Detail: fmt.Sprintf("strings.Repeat gives %q; interpreter gave %v (%T), err=%v", want, out.val, out.val, out.err)})
+			}
+		}
+	}
+	for _, c := range []interface{}{time.Month(-1), opsLevel(-2)} {
+		out := runScript("\"ab\" * n", map[string]interface{}{"n": c}, nil)
+		o.Sum.Evaluations++
+		if out.panicked || out.err == nil {
+			o.Fail(Failure{Oracle: "go-arithmetic", Key: "repeat-count-type:negative", Input: fmt.Sprintf("\"ab\" * n with n = %T(%v)", c, c), Detail: fmt.Sprintf("a negative count is an error; got %v", out.val)})
 		}
 	}
 	// float32 operands (host values, elements of a []float32, struct fields): as soon as one operand is a float the operation is
